@@ -18,14 +18,14 @@ T_PROOF = "Lean 4 theorem (induction / refinement over the model) + model-vs-imp
 CLAIMED = {
  "C01": ("proof", "history_refines: for every finite history the tree machine (Go's recursiveSet/recursiveRemove/balance/get/has/getByIndex/range walk) answers exactly as the versioned map - proved by induction over operations for any lawful key order; the model is tied to /repo by running the compiled model and the real library on generated and corpus histories over the option grid (cache, fast index, flush threshold, backend, initial version) and comparing every answer", "5.C01", T_PROOF),
  "C02": ("proof", "the canonical hash is the model's hashNode over the version machine's trees (independent implementation incl. SHA-256 written in Lean); proved: working hash = commit hash, persisted hash independent of query version, reads preserve state; every hash the library returns (commit, working, per retained version, after reopen/prune/rollback/import) is compared byte for byte", "5.C02", T_PROOF),
- "C03": ("proof", "proved for an arbitrary 32-byte hash: generated existence proofs compute the root hash for every tree and key, are complete for present keys, and are sound modulo an explicit hash collision; non-membership construction and the real ics23 verifier's verdict (genuine and mutated claims, other roots) are tied by correspondence", "5.C03", T_PROOF),
+ "C03": ("proof", "proved for an arbitrary 32-byte hash: generated existence proofs compute the root hash for every tree and key, are complete for present keys, and are sound modulo an explicit hash collision; an executable model of the ics23 verifier (ExistenceProof.Verify, NonExistenceProof.Verify, CheckAgainstSpec, validateIavlOps, IsLeftMost/IsRightMost/IsLeftNeighbor for IavlSpec) is proved sound for non-membership (an accepted non-existence proof against the root of an ordered tree shows an absent key, or a collision) and excludes the opposite claim; the verifier model is compared with the real ics23 verifier on every proof the library produced, genuine and mutated (about 60000 verdicts per quick run); generated proof bytes and the real verifier's verdicts are compared on every history", "5.C03", T_PROOF),
  "C04": ("proof", "version-machine theorems (deletion removes exactly versions <= n, later versions and working state untouched, deleting the latest rejected) + orphans_exact (the two-cursor diff deletes exactly the nodes the next version does not use); the storage machine under small flush thresholds is tied by correspondence over prune-heavy histories incl. raw-store audit", "5.C04", T_PROOF),
  "C05": ("fault_enumeration", "exhaustive enumeration, on the implementation's own recorded write log, of every boundary between two physical writes of every mutating operation: reopen on the image, Load, all versions by tree walk and through the index, retry of the operation; judged against the states before/after. Lean contributes flush_split_same_result / cut_image (splitting a batch never changes the result; a cut image is a prefix image). Multi-batch operations are NOT atomic on the unchanged tree (K7, K7c recorded)", "5.C05", "crash-cut enumeration on the implementation + Lean lemma on batch splitting"),
  "C07": ("proof", "overlay-merge theorems (members and order of the index-plus-uncommitted iterator); index coherence across build / disable / re-enable / older-version loads / rollback is decided by correspondence: every indexed answer (Get, GetVersioned, iterators) against the model of the tree walk, and the raw f-entries + label against the latest version", "5.C07", T_PROOF),
  "C08": ("proof", "walk_eq_spec: the pruned tree walk yields exactly rangeSpec for all bounds, both directions, inclusive or not; overlay iterator = overlaid state; the three iterator implementations and the callback/stop variants are compared with the model on generated bounds", "5.C08", T_PROOF),
  "C09": ("proof", "version-machine theorems for Rollback, LoadVersionForOverwriting and DeleteVersionsFrom (exactly the versions above the target disappear, working state = target); equality of all later observations follows from determinism of the machine; tied by correspondence incl. fast index on/off and reopen", "5.C09", T_PROOF),
- "C10": ("proof", "importer modelled as a total state machine: proved that Add and the decompressor never reach a Go panic for any node on any stack, import(export t) = t for persisted AVL trees, delta codec lossless; export streams (plain/compressed), import of genuine and hostile streams (result class, visibility, later hashes) compared with the model", "5.C10", T_PROOF),
- "C11": ("proof", "AVL preservation by set/remove with exact stored heights and sizes, fib(h+2) <= n, lookup by key = (rank, value), lookup by rank = i-th pair: proved; height/size/rank answers compared with the model, AVL real-valued bound and storage-read counts (cache 0) checked on the implementation", "5.C11", T_PROOF),
+ "C10": ("proof", "importer modelled as a total state machine: proved that Add and the decompressor never reach a Go panic for any node on any stack, import(export t) = t for persisted AVL trees, delta codec lossless; export streams (plain/compressed), import of genuine and hostile streams (result class, visibility, later hashes) compared with the model; every failing batch write of an import of more than 10000 nodes is enumerated (no hang, no silent success)", "5.C10", T_PROOF),
+ "C11": ("proof", "AVL preservation by set/remove with exact stored heights and sizes, fib(h+2) <= n, lookup by key = (rank, value), lookup by rank = i-th pair: proved; with only the root in memory a lookup by key fetches <= height nodes, by rank <= 2*height, a proof query <= 10*height: proved on the model of the child fetches; height/size/rank answers and the exact storage-read counts (cache 0) are compared with the model, the real-valued AVL bound is checked on every reported pair", "5.C11", T_PROOF),
  "C12": ("proof", "the raw storage after every step is decoded by the model's proved-inverse decoder and audited against the model's retained versions (every retained tree rebuilt through root markers and child links equals the reference, no unreachable node, index = latest pairs); orphan-diff exactness proved", "5.C12", T_PROOF),
  "C13": ("proof", "round-trip theorems for the node codec (new and legacy child references, mode bits, range checks), legacy nodes, fast nodes, zig-zag varints, length-prefixed bytes, Go's uvarint with overflow checks, and decoded length <= input length; the model's total decoders are compared with MakeNode / MakeLegacyNode / fastnode.DeserializeNode / the varint and bytes decoders / the reference-root reader on structured, mutated and random inputs (result class and every decoded field), the library-written database is decoded and audited by the model after every step (C12 machinery), and conversely the model's independent encoder writes a database image of a retained version which the library opens, reads, proves, exports and extends with further commits (hashes compared)", "5.C13", T_PROOF),
  "C14": ("proof", "version-machine theorems (query agreement, commit onto an existing version succeeds iff same hash and changes nothing, new commit appends exactly one version, out-of-range loads fail and leave the machine unchanged) + correctness of the first-version binary search under root-key monotonicity; tied by correspondence with every version number queried", "5.C14", T_PROOF),
@@ -39,7 +39,7 @@ CLAIMED["C20"] = ("translation_validation", "close / reopen / LoadVersion of eve
 
 CLAIMED["C16"] = ("translation_validation", "legacy databases are written by the real legacy library (iavl v0.20.0, the version cmd/legacydump pins) from generated histories with and without legacy-side deletions; the current library opens them and every legacy version's contents and root hash, new commits on top, commits without writes on a legacy root, pruning below/at/above the boundary, rollback into the legacy range and reopenings are compared with the model's predictions; legacy codec round trips proved; K24 (converted-root key clash) recorded", "5.C16", "legacy library as producer + current library vs the Lean model on generated histories")
 
-CLAIMED["C06"] = ("exploration", "PARTIAL. Proved on the model: committed versions are values untouched by later writes, commits and deletions of other versions. Searched on the implementation, not proved: (a) yield-point schedules - every commit and deletion of every generated history is parked at each protocol boundary (before/after the batch commit, after the reader check and after each per-version step of pruning) while every other committed version is read through the reader API and compared with the reads taken before the operation; export-pin checks; (b) 4 readers against 1 writer under the Go race detector (sync and async pruning, cache on/off, fast index on/off). Data-race freedom and interleavings below yield-point granularity cannot be carried by the Lean model", "5.C06", "yield-point schedule exploration + race detector; Lean lemma on immutability of committed versions")
+CLAIMED["C06"] = ("exploration", "PARTIAL. Proved on the model: committed versions are values untouched by later writes, commits and deletions of other versions. Searched on the implementation, not proved: (a) yield-point schedules - every commit and deletion of every generated history is parked at each protocol boundary (before/after the batch commit, after the reader check and after each per-version step of pruning) while every other committed version is read through the reader API and compared with the reads taken before the operation; a reader parked between its index check and the creation of its iterator while the next version is committed; export-pin checks (pinned before / after the reader check, double close); (b) 4 readers against 1 writer under the Go race detector (sync and async pruning, cache on/off, fast index on/off). Data-race freedom and interleavings below yield-point granularity cannot be carried by the Lean model", "5.C06", "yield-point schedule exploration + race detector; Lean lemma on immutability of committed versions")
 
 NA = {
 }
